@@ -38,6 +38,8 @@ class Gen:
         self.cid = cid
         self.max_depth = max_depth
         self.navbias = None
+        self.script = None
+        self.directed = None
 
     def room(self, n=6) -> bool:
         return self.sid + n < min(self.cap, MAX_SID)
@@ -284,10 +286,93 @@ class Gen:
         ch.append([self.leaf("box"), ["weight", 1]])
         return {"k": "pile", "mode": "box", "cid": self._newcid(), "ch": ch, "focus": r.choice([None, 0, len(seq) - 1])}
 
+    # ---------------------------------------------------------------- directed regressions of recorded fixes
+    def _plain(self, mode, sel, rows=1):
+        n = self.leaf(mode)
+        n.pop("wrap", None)
+        n.pop("xlate", None)
+        n.update(sel=sel, keys=[], rows=rows)
+        return n
+
+    def _regression(self):
+        """shapes + scripted first ops taken from the `fixed: property=C08` lines (each line's named cases)"""
+        r = self.rng
+        which = r.choice(["frame-empty-part", "pile-unselectable-any-key", "cache-lost-dependency", "grid-focus-on-empty-cell", "overlay-top-replaced", "grid-selectable-after-edit"])
+        self.directed = which
+        ec = lambda: r.choice([  # noqa: E731  an empty flow container
+            {"k": "pile", "mode": "flow", "cid": self._newcid(), "ch": [], "focus": None},
+            {"k": "cols", "mode": "flow", "cid": self._newcid(), "ch": [], "div": 0, "focus": None},
+            {"k": "grid", "mode": "flow", "cid": self._newcid(), "ch": [], "cw": 3, "hs": 1, "vs": 0, "align": "left", "focus": None},
+        ])
+        if which == "frame-empty-part":
+            # 1189b2d: header/footer that is an EMPTY container, reached at build / by emptying it / by assignment
+            part = r.choice(["header", "footer"])
+            how = r.choice(["build", "edit", "assign"])
+            if how == "edit":
+                cid = self._newcid()
+                partw = {"k": r.choice(["pile", "grid"]), "mode": "flow", "cid": cid, "ch": [[self._plain("flow", True), ["pack"]]], "focus": None}
+                if partw["k"] == "grid":
+                    partw.update(ch=[[partw["ch"][0][0], None]], cw=3, hs=0, vs=1, align="left")
+            else:
+                partw = ec()
+            t = {"k": "frame", "mode": "box", "cid": self._newcid(), "body": self._plain("box", r.random() < 0.5), "header": None, "footer": None, "fp": part if how != "assign" else "body"}
+            t[part] = partw
+            other = "footer" if part == "header" else "header"
+            if r.random() < 0.5:
+                t[other] = self._plain("flow", True)
+            self.script = {"build": [["render", 0]], "edit": [["clear", partw["cid"], r.choice(["clear", "delall", "assign", "prop"])], ["render", 0]], "assign": [["focus", t["cid"], part], ["key", "x"]]}[how]
+            return t
+        if which == "pile-unselectable-any-key":
+            # eb8ae90: a Pile whose selectable() is (stale) False must hand every non up/down key back
+            p1 = {"k": "pile", "mode": "flow", "cid": self._newcid(), "ch": [[self._plain("flow", False), ["pack"]], [self._plain("flow", False), ["pack"]]], "focus": None}
+            p2 = {"k": "pile", "mode": "flow", "cid": self._newcid(), "ch": [[self._plain("flow", False), ["pack"]], [p1, ["pack"]]], "focus": None}
+            t = {"k": "pile", "mode": "box", "cid": self._newcid(), "ch": [[self._plain("flow", True), ["pack"]], [p2, ["pack"]], [self._plain("box", False), ["weight", 1]]], "focus": 1}
+            new = self._plain("flow", True)
+            self.script = [["setitem", p1["cid"], r.choice([0, 1]), [new, ["pack"]]]] + [["key", k] for k in r.sample(["l", "x", "enter", "left", "tab", "f5", "home"], 3)]
+            return t
+        if which == "cache-lost-dependency":
+            # c7a76a5: resize, old frame dropped, a sibling at the new size is not cacheable, then the focus moves
+            inner = {"k": "cols", "mode": "flow", "cid": self._newcid(), "ch": [[self._plain("flow", False), ["weight", 1]], [dict({"k": "pile", "mode": "flow", "cid": self._newcid(), "ch": [], "focus": None}, wrap="padding"), ["weight", 1]], [self._plain("flow", False), ["weight", 1]], [self._plain("flow", r.random() < 0.5), ["weight", 1]]], "div": 0, "focus": None}
+            t = {"k": "cols", "mode": "box", "cid": self._newcid(), "ch": [[self._plain("flow", True), ["given", 6]], [self._plain("flow", r.random() < 0.5), ["given", 5]], [inner, ["given", 4]]], "div": 1, "focus": None, "wrap": "filler"}
+            self.script = [["render", 2], ["render", 0], ["focus", t["cid"], 1], ["render", 0]]
+            return t
+        if which == "grid-focus-on-empty-cell":
+            # 5672901: GridFlow focus on an empty-container cell; move_cursor_to_coords / mouse / handled key must not rewrite it
+            g = {"k": "grid", "mode": "flow", "cid": self._newcid(), "ch": [[self._plain("flow", False, 3), None], [ec(), None]], "cw": 2, "hs": 1, "vs": 1, "align": "center", "focus": 1}
+            top = {"k": "pile", "mode": "flow", "cid": self._newcid(), "ch": [[self._plain("flow", True), ["weight", 1]]], "focus": None}
+            g1 = {"k": "grid", "mode": "flow", "cid": self._newcid(), "ch": [[self._plain("flow", True, 3), None]], "cw": 2, "hs": 1, "vs": 0, "align": "left", "focus": None}
+            ep = {"k": "pile", "mode": "flow", "cid": self._newcid(), "ch": [], "focus": None, "wrap": ["boxadapter", 3]}
+            eg = {"k": "grid", "mode": "flow", "cid": self._newcid(), "ch": [], "cw": 2, "hs": 1, "vs": 1, "align": "left", "focus": None}
+            ip = {"k": "pile", "mode": "flow", "cid": self._newcid(), "ch": [[self._plain("flow", False), ["pack"]], [self._plain("flow", True, 3), ["pack"]]], "focus": None}
+            last = {"k": "grid", "mode": "flow", "cid": self._newcid(), "ch": [[ip, None]], "cw": 3, "hs": 2, "vs": 1, "align": "right", "focus": None}
+            items = [top, g1, g, ep, eg, last]
+            t = {"k": "list", "mode": "box", "cid": self._newcid(), "ch": [[c, None] for c in items], "walker": r.choice(["sflw", "sflw", "slw"]), "focus": None}
+            # (witness of the thorough alarm: no render first, focus the empty item below the group, then 'up')
+            self.script = [["path", [4]], ["key", "up"], ["key", "up"], ["render", 0], ["mouse", 9, 5], ["mouse", 2, 4]]
+            return t
+        if which == "overlay-top-replaced":
+            # 6ed656a: contents[1] = (w, opts) and contents = [...] must replace the top widget
+            t = {"k": "overlay", "mode": "box", "cid": self._newcid(), "top": self._plain("box", True), "bottom": self._plain("box", r.random() < 0.5), "w": ["relative", 50], "h": 3, "align": "center", "valign": "top"}
+            self.script = [["overlay", t["cid"], 1, self._plain("box", True), r.choice(["item", "assign"])], ["key", "x"], ["render", 0]]
+            return t
+        # 56487e0: GridFlow.selectable() right after an edit, both directions
+        gain = r.random() < 0.5
+        g = {"k": "grid", "mode": "flow", "cid": self._newcid(), "ch": [[self._plain("flow", not gain), None]], "cw": 3, "hs": 1, "vs": 1, "align": "left", "focus": None, "wrap": "filler"}
+        g["mode"] = "box"
+        if gain:
+            self.script = [["ins", g["cid"], r.choice([0, 1]), [self._plain("flow", True), None], r.choice(["append", "extend", "insert", "iadd"])], ["key", "x"]]
+        else:
+            self.script = [["del", g["cid"], 0, r.choice(["del", "pop", "pop()", "remove"])], ["key", "x"]]
+        return g
+
     def root(self):
         """the root is always sized as a box widget (as MainLoop does)"""
         r = self.rng
         self.navbias = None
+        self.script = None
+        self.directed = None
+        if r.random() < 0.08:
+            return self._regression()
         if r.random() < 0.15:
             t = self._form()
             self.navbias = ["left", "right"] if t["k"] == "cols" else ["up", "down"]
